@@ -37,6 +37,7 @@ type Run struct {
 	known      []string
 	progressF  *os.File
 	traces     int
+	quiet      bool // C15: the scenarios of other properties run for their memory accesses only
 }
 
 // Violation is one observed failure of the property's executable monitor.
@@ -115,6 +116,10 @@ func (r *Run) Want(scenario string) bool {
 func (r *Run) Case(op, input, out string) {
 	r.mu.Lock()
 	defer r.mu.Unlock()
+	if r.quiet {
+		r.evals++
+		return
+	}
 	fmt.Fprintf(r.cases, "%s\t%s\t%s\n", op, input, out)
 	r.nCases++
 	r.evals++
@@ -182,6 +187,10 @@ func (r *Run) KnownFinding(id, what string) {
 func (r *Run) Violate(scenario, kind, detail string, input, observed, expected any) {
 	r.mu.Lock()
 	defer r.mu.Unlock()
+	if r.quiet {
+		r.dist["monitor-violations-ignored(see the property's own check)"]++
+		return
+	}
 	if len(r.violations) >= 20 {
 		return
 	}
